@@ -12,6 +12,7 @@ SPEC = {
             "plus sequences of 2..5 Setup* calls on one Sender and one Receiver object (drawn, and all 16 ordered pairs of modes per KEM), plus single-bit flips of one honest enc per KEM "
             "(all bits for P-256/384/521/X25519 and in the thorough tier; edges + the raw X25519 share + a sample otherwise); the encapsulation randomness is handed to Setup through "
             "readers that return whole, one-byte, half and random-chunk reads; in three quarters of the re-use sequences all []byte arguments live in one caller arena that is overwritten in place between calls; "
+            "every byte slice the API returns (marshalled keys and contexts, enc, ciphertexts, plaintexts, exports) is copied and then overwritten in place by the harness before the objects are used again; "
             "a reduced grid (X25519, X448, both hybrids, P-256) also runs on the purego build and with cpu.avx2/bmi2/adx switched off (quick: purego and all-off). "
             "non-trivial = the case's mode is not base, or it is a negative relation (receiver differing in exactly one of skR/info/psk/psk_id/mode/pkS), "
             "or an asserted row of the PSK table, or an official vector, or a re-use sequence with two different modes, or an altered enc; distinct by FNV-64 of (sub-check, suite, mode, all inputs, relation)",
